@@ -46,6 +46,13 @@ class CrateMir:
             if l.startswith('alloc') and '(static: ' in l:
                 ms = re.match(r'^alloc(\d+) \(static: ([\w:]+)', l)
                 if ms: self.statics[int(ms.group(1))] = ms.group(2)
+            m1 = re.match(r'^(?:const|static(?: mut)?) ([\w:<>]+): ([^=]+?) = (const .+);$', l) if l.startswith(('const ', 'static ')) else None
+            if m1:
+                # one-line constant item: `const VARIABLE: u32 = const 0_u32;`
+                name, ret, val = m1.group(1), m1.group(2).strip(), m1.group(3)
+                h = hashlib.sha256(l.encode('utf-8', 'surrogateescape')).hexdigest()[:16]
+                f = Fn(name, self.crate, [], ret, {0: ['_0 = ' + val + ';', 'return;']}, {0: ret}, True, h, set())
+                self.fns.setdefault(name, []).append(f)
             if l and not l[0].isspace() and l.endswith('{'):
                 m = FN_RE.match(l)
                 mc = None
